@@ -19,7 +19,8 @@ _P = {}
 
 
 def _proj():
-    if "d" not in _P:
+    if _P.get("pid") != os.getpid():
+        _P["pid"] = os.getpid()
         d = tempfile.mkdtemp(prefix="c10proj-")
         atexit.register(shutil.rmtree, d, True)
         # per-language overrides: a cache keyed too coarsely (per run instead of per language) would make a
@@ -91,20 +92,27 @@ def h_cli_vs_api(ctx):
     cmd = ctx.pick("command", tuple(c for c in catalogue.linter_commands() if c != "file-placement"))
     target = ctx.pick("target", ("directory", "file:dup1.py", "file:selfdup.py", "file:magic.py", "file:unwrap.rs", "file:nest.ts", "file:broken.py", "file:broken.ts", "subdir"))
     t = {"directory": d / "src", "subdir": d / "src" / "sub"}.get(target) or d / "src" / target.split(":")[1]
+    # the configuration may also be handed over explicitly: `--config FILE` / Linter(config_file=FILE)
+    explicit = ctx.pick("explicit_config", ("none", "with-ignore-list"))
+    cfg_args, cfg_kw = [], {}
+    if explicit != "none":
+        cf = d / ("explicit-%d.yaml" % os.getpid())      # per process: pool workers share nothing they write
+        cf.write_text((d / ".thailint.yaml").read_text() + "\nignore:\n  - 'src/magic.py'\n  - 'src/sub/'\n  - '*.rs'\n")
+        cfg_args, cfg_kw = ["--config", str(cf)], {"config_file": cf}
     ign.clear_ignore_parser_cache()
-    r = CliRunner().invoke(cli, [cmd, "--format", "json", str(t)])
+    r = CliRunner().invoke(cli, [cmd, "--format", "json"] + cfg_args + [str(t)])
     ctx.require("cli-run-completes", r.exit_code in (0, 1), code=r.exit_code, out=r.output[-200:])
     if r.exit_code not in (0, 1):
         return
     doc = json.loads(r.output)
     cli_v = Counter((v["rule_id"], v["file_path"], v["line"], v["column"], v["message"]) for v in doc["violations"])
     ign.clear_ignore_parser_cache()
-    api_all = Linter(project_root=d).lint(t)
+    api_all = Linter(project_root=d, **cfg_kw).lint(t)
     own_ids = sorted({v.rule_id for v in api_all if catalogue.owns(cmd, v.rule_id)})
     api_v = Counter(_k(v) for v in api_all if catalogue.owns(cmd, v.rule_id))
     # the documented way to select rules in the library: rules=[ids]
     ign.clear_ignore_parser_cache()
-    api_sel = Counter(_k(v) for v in Linter(project_root=d).lint(t, rules=own_ids)) if own_ids else Counter()
+    api_sel = Counter(_k(v) for v in Linter(project_root=d, **cfg_kw).lint(t, rules=own_ids)) if own_ids else Counter()
     ctx.cover("findings" if cli_v else "no-findings")
     ctx.require("cli-equals-library", cli_v == api_v, command=cmd, target=target,
                 only_cli=[list(k)[:3] for k in list(cli_v - api_v)[:4]], only_api=[list(k)[:3] for k in list(api_v - cli_v)[:4]])
